@@ -154,7 +154,7 @@ def persistence(ctx) -> None:
     ctx.check(ok, 'C01.persistence', add, 'a Loader exists only for persistent groups, once per group, loading that group id', ld[0] if ld else add.node, key='loader')
     if ld:
         setc = core.parent(ld[0])
-        ctx.check(isinstance(setc, ast.Call) and core.src(setc.func) == 'self._index.set' and core.src(setc.args[1]) == 'state', 'C01.persistence', add, 'the loader is registered under the group id', ld[0], key='loader:key')
+        ctx.check(isinstance(setc, ast.Call) and core.src(setc.func) == 'self._index.set' and len(setc.args) > 1 and core.src(setc.args[1]) == 'state', 'C01.persistence', add, 'the loader is registered under the group id', ld[0], key='loader:key')
     for nm in ('system.Dumper', 'system.Committer'):
         cs = site(nm)
         gs = guards_of(cs[0]) if cs else []
@@ -356,6 +356,9 @@ def system_instructions(ctx) -> None:
 
 
 def run(ctx) -> None:
+    from . import C13 as _c13
+
+    _c13.functor_actor(ctx)  # each execution of the table works on freshly built actors: a second run of the same symbols equals the first
     # nothing is computed from a loop variable after its loop ran to completion (it would be the last element's value)
     shared.r_staleloop(ctx, ctx.prog.functions([m for m in ctx.prog.modules if m.startswith(('forml.flow._code', 'forml.flow._graph'))]))
     system_instructions(ctx)
